@@ -27,7 +27,7 @@ def _probe(model_top):
     x = synapgrad.Tensor(np.ones((2,), dtype=np.float32), requires_grad=True)
     z = x * 2.0
     ok = (x.requires_grad == model_top[0]) and (z.requires_grad == model_top[0]) and ((z.grad_fn is not None) == model_top[0])
-    return ok and (TM.gradient__, TM.retain_grads__) == model_top
+    return ok and _mode_is(model_top)
 
 
 def %(name)s(rest: List[Tuple[int, int]]) -> bool:
@@ -37,8 +37,7 @@ def %(name)s(rest: List[Tuple[int, int]]) -> bool:
     post: __return__ == True
     """
     _PATHS[0] += 1
-    TM.gradient__ = True
-    TM.retain_grads__ = False
+    _reset_modes()
     model = [(True, False)]      # stack of modes; top = mode in force
     built = []                   # constructed, not yet entered: (kind, object)
     entered = []                 # entered contexts, innermost last
@@ -52,43 +51,49 @@ def %(name)s(rest: List[Tuple[int, int]]) -> bool:
             if built:
                 kind, c = built.pop(a %% len(built))
                 c.__enter__()
+                _LEFT.append(c)
                 entered.append((kind, c))
                 top = model[-1]
                 model.append((False, top[1]) if kind == 0 else (top[0], True))
         elif op == 3:            # with no_grad():
             c = synapgrad.no_grad()
             c.__enter__()
+            _LEFT.append(c)
             entered.append((0, c))
             model.append((False, model[-1][1]))
         elif op == 4:            # with retain_grads():
             c = synapgrad.retain_grads()
             c.__enter__()
+            _LEFT.append(c)
             entered.append((1, c))
             model.append((model[-1][0], True))
         elif op == 5:            # leave the innermost context normally
             if entered:
                 entered.pop()[1].__exit__(None, None, None)
+                _LEFT.pop()
                 model.pop()
         elif op == 6:            # leave the innermost context by exception
             if entered:
                 r = entered.pop()[1].__exit__(ValueError, ValueError("x"), None)
+                _LEFT.pop()
                 model.pop()
                 ok = ok and not r            # the exception must not be swallowed
         elif op == 8:            # enter a context object that is already entered (the same object nested in itself)
             if entered:
                 kind, c = entered[a %% len(entered)]
                 c.__enter__()
+                _LEFT.append(c)
                 entered.append((kind, c))
                 top = model[-1]
                 model.append((False, top[1]) if kind == 0 else (top[0], True))
         else:
             ok = ok and _probe(model[-1])
-        ok = ok and (TM.gradient__, TM.retain_grads__) == model[-1]
+        ok = ok and _mode_is(model[-1])
     ok = ok and _probe(model[-1])
     while entered:
         entered.pop()[1].__exit__(None, None, None)
-    TM.gradient__ = True
-    TM.retain_grads__ = False
+    del _LEFT[:]
+    _reset_modes()
     return ok
 
 
@@ -125,7 +130,7 @@ def _consistent(live):
         t = r.t
         if t.requires_grad != r.req or (t.grad_fn is not None) != (r.req and r.has_fn) or t.is_leaf != r.is_leaf():
             return False
-        if (t._grad is not None) != r.has_grad and r.has_grad is not None:
+        if (_g(t) is not None) != r.has_grad and r.has_grad is not None:
             return False
     return True
 
@@ -137,8 +142,7 @@ def %(name)s(rest: List[Tuple[int, int]]) -> bool:
     post: __return__ == True
     """
     _PATHS[0] += 1
-    TM.gradient__ = True
-    TM.retain_grads__ = False
+    _reset_modes()
     mode = [(True, False)]
     entered = []
     live = []
@@ -146,12 +150,12 @@ def %(name)s(rest: List[Tuple[int, int]]) -> bool:
     for op, a in [FIRST] + list(rest):
         grad_on, retain_on = mode[-1]
         if op == 0:
-            c = synapgrad.no_grad(); c.__enter__(); entered.append(c); mode.append((False, retain_on))
+            c = synapgrad.no_grad(); c.__enter__(); _LEFT.append(c); entered.append(c); mode.append((False, retain_on))
         elif op == 1:
-            c = synapgrad.retain_grads(); c.__enter__(); entered.append(c); mode.append((grad_on, True))
+            c = synapgrad.retain_grads(); c.__enter__(); _LEFT.append(c); entered.append(c); mode.append((grad_on, True))
         elif op == 2:
             if entered:
-                entered.pop().__exit__(None, None, None); mode.pop()
+                entered.pop().__exit__(None, None, None); _LEFT.pop(); mode.pop()
         elif op == 3:            # float leaf, requested flag a%%2
             want = bool(a %% 2)
             t = synapgrad.Tensor(np.ones((2,), dtype=np.float32) * (len(live) + 2), requires_grad=want)
@@ -250,12 +254,12 @@ def %(name)s(rest: List[Tuple[int, int]]) -> bool:
                 p = live[a %% len(live)]
                 t = p.t.detach()
                 live.append(R(t, False, False, p.floating, [], retain_on))
-        ok = ok and (TM.gradient__, TM.retain_grads__) == mode[-1] and _consistent(live)
+        ok = ok and _mode_is(mode[-1]) and _consistent(live)
         live = live[-3:]
     while entered:
         entered.pop().__exit__(None, None, None)
-    TM.gradient__ = True
-    TM.retain_grads__ = False
+    del _LEFT[:]
+    _reset_modes()
     return ok
 
 
@@ -370,8 +374,7 @@ def %(name)s(opi: int, f0: bool, f1: bool, f2: bool, grad_on: bool) -> bool:
     post: __return__ == True
     """
     _PATHS[0] += 1
-    TM.gradient__ = True
-    TM.retain_grads__ = False
+    _reset_modes()
     name, shapes, call = OPS[opi]
     flags = [f0, f1, f2][:len(shapes)]
     ts = [synapgrad.Tensor(_a(*sh), requires_grad=bool(fl)) for sh, fl in zip(shapes, flags)]
@@ -379,6 +382,7 @@ def %(name)s(opi: int, f0: bool, f1: bool, f2: bool, grad_on: bool) -> bool:
     if not grad_on:
         ctx = synapgrad.no_grad()
         ctx.__enter__()
+        _LEFT.append(ctx)
     try:
         # every argument is concrete by now; the strided-view kernels (as_strided) do not run under CrossHair's tracer, which
         # replaces the dict that NumPy's __array_interface__ protocol insists on
@@ -387,24 +391,24 @@ def %(name)s(opi: int, f0: bool, f1: bool, f2: bool, grad_on: bool) -> bool:
     finally:
         if ctx is not None:
             ctx.__exit__(None, None, None)
+            _LEFT.pop()
     want = bool(grad_on) and any(bool(fl) for fl in flags)
     ok = True
     outs = res if isinstance(res, list) else [res]
     for o in outs:
-        ok = ok and (o.requires_grad == want) and ((o.grad_fn is not None) == want) and (o.is_leaf == (not want)) and o._grad is None
+        ok = ok and (o.requires_grad == want) and ((o.grad_fn is not None) == want) and (o.is_leaf == (not want)) and _g(o) is None
     o = outs[-1]
     try:
         with NoTracing():
             o.backward(synapgrad.Tensor(np.ones(o.shape, dtype=np.float32)))
         ok = ok and want
         for t, fl in zip(ts, flags):
-            ok = ok and ((t._grad is not None) == bool(fl))      # every flagged operand received a gradient, no other did
+            ok = ok and ((_g(t) is not None) == bool(fl))      # every flagged operand received a gradient, no other did
     except RuntimeError:
         ok = ok and not want
         for x in outs + ts:
-            ok = ok and x._grad is None                           # a refused backward leaves no gradient anywhere
-    TM.gradient__ = True
-    TM.retain_grads__ = False
+            ok = ok and _g(x) is None                           # a refused backward leaves no gradient anywhere
+    _reset_modes()
     return ok
 
 
